@@ -387,6 +387,8 @@ class Registry:
         is_init = fref.qualname.endswith(".__init__")
         old_env = self.snapshot(env)
         fr = self.contract_frame(I, fref.module, f"call:{callee}", env, old_env)
+        if c.post_setup:
+            c.post_setup(I, fr)      # ghost definitions are needed by the requires as well
         for k, src in enumerate(c.requires):
             v = self.eval_clause(I, src, fr)
             self.prove_clause(I, f"call:{callee}/pre#{k}", v, "pre", fr)
@@ -620,7 +622,12 @@ class Registry:
     symseq_append = _unsupported("append to a symbolic-length sequence")
     opaque_tensor = _unsupported("tensor from an opaque value")
     cplx_abs = _unsupported("abs of a complex value")
-    ceil_int = _unsupported("ceil of a symbolic real")
+    def ceil_int(self, I, x):
+        """ceil(x) for a symbolic real: the integer n with n - 1 < x <= n"""
+        n = I.ctx.fresh("ceil", "int")
+        xz = to_z3(x)
+        I.ctx.assume(z3.And(z3.ToReal(n) >= xz, z3.ToReal(n) - 1 < xz))
+        return n
 
     def opaque_isinstance(self, I, x, cls):
         key = f"__isinstance__:{getattr(cls, 'name', getattr(cls, 'dotted', '?'))}"
